@@ -12,6 +12,10 @@
      fix_volatile  Load/Store "volatile" is read back               (orig: written, never read)
      fix_copyblob  ir.CopyBlob has a writer and a reader case        (orig: NotImplementedError)
      fix_undefined ir.Undefined has a writer and a reader case       (orig: NotImplementedError)
+     fix_fwdtype   the placeholder for a value defined later in the subroutine gets that value's
+                   type, found by a pre-scan of the subroutine's JSON (orig: ptr, or the phi's
+                   type, so ir.Binop/ir.Unop/ir.AddressOf/Phi.set_incoming raise whenever an
+                   operand of another type is defined later in print order)
 
    How Python objects are modelled over the id-based syntax of Spec/IRSyntax.v
    * a registered value object = its [vref] (+ its ir type, needed by the constructor checks);
@@ -35,13 +39,14 @@
      ill-typed value along. *)
 From PV Require Import Lib.Py Lib.Val Lib.Json Spec.IRSyntax.
 From Coq Require Import String Ascii.
-Open Scope Z_scope.
 Local Open Scope string_scope.
+Local Open Scope list_scope.
+Open Scope Z_scope.
 
 Record jcfg := mk_jcfg { fix_value : bool; fix_volatile : bool; fix_copyblob : bool;
-                         fix_undefined : bool }.
-Definition cfg_orig := mk_jcfg false false false false.
-Definition cfg_fixed := mk_jcfg true true true true.
+                         fix_undefined : bool; fix_fwdtype : bool }.
+Definition cfg_orig := mk_jcfg false false false false false.
+Definition cfg_fixed := mk_jcfg true true true true true.
 
 Definition JFloat (bits : Z) : json := JObj [("$float64", JNum bits)].
 
@@ -89,7 +94,7 @@ Definition bin2asc (d : list Z) : json :=
 Definition asc2bin (j : json) : result (list Z) :=
   match j with
   | JStr s => unhexlify s
-  | JList l => parts <- mapM (fun p => s <- as_str p ;; unhexlify s) l ;; Ok (concat parts)
+  | JList l => parts <- mapM (fun p => s <- as_str p ;; unhexlify s) l ;; Ok (List.concat parts)
   | _ => Internal NotImplemented
   end.
 
@@ -364,7 +369,7 @@ Definition block_names_of (l : list block) : list string := map b_name l.
 
 (* block.add_instruction *)
 Definition add_instruction (i : instr) (st : rst) : result rst :=
-  _ <- check (negb (match rev (rs_ins st) with x :: _ => is_terminator x | [] => false end))
+  _ <- check (negb (match List.rev (rs_ins st) with x :: _ => is_terminator x | [] => false end))
              AssertionError ;;
   _ <- check (match instr_def i with
               | Some d => negb (mem_str (def_name d) (block_names_of (rs_blocks st)))
@@ -385,42 +390,69 @@ Definition finish_value (i : instr) (st : rst) : result rst :=
       end
   end.
 
-Fixpoint get_args (l : list json) (st : rst) : result (list vref * rst) :=
+(* fix C16-5: types of the values defined in a subroutine, collected from its JSON before the
+   blocks are constructed; a placeholder for a later-defined value gets its real type *)
+Definition gvr (vt : list (string * ty)) (name : string) (dty : ty) (st : rst) : (vref * ty) * rst :=
+  get_value_ref name (match plookup name vt with Some t => t | None => dty end) st.
+Definition scan_instr_type (j : json) : result (list (string * ty)) :=
+  match j with
+  | JObj l =>
+      match jlookup "name" l, jlookup "kind" l with
+      | Some (JStr n), Some (JStr k) =>
+          if String.eqb k "alloc" then
+            s <- jint "size" j ;; a <- jint "alignment" j ;; Ok [(n, Blob s a)]
+          else if String.eqb k "literaldata" then
+            dj <- jget "data" j ;; d <- asc2bin dj ;; Ok [(n, Blob (len d) 1)]
+          else if String.eqb k "addressof" then Ok [(n, Ptr)]
+          else match jlookup "type" l with
+               | Some tj => t <- get_type tj ;; Ok [(n, t)]
+               | None => Ok []
+               end
+      | _, _ => Ok []
+      end
+  | _ => Ok []
+  end.
+Definition scan_value_types (blocks : list json) : result (list (string * ty)) :=
+  per <- mapM (fun b => ij <- jget "instructions" b ;; il <- as_list ij ;;
+                        ts <- mapM scan_instr_type il ;; Ok (List.concat ts)) blocks ;;
+  Ok (List.concat per).
+
+Fixpoint get_args (vt : list (string * ty)) (l : list json) (st : rst) : result (list vref * rst) :=
   match l with
   | [] => Ok ([], st)
   | j :: r => n <- as_str j ;;
-              let '((a, _), st1) := get_value_ref n Ptr st in
-              '(rest, st2) <- get_args r st1 ;; Ok (a :: rest, st2)
+              let '((a, _), st1) := gvr vt n Ptr st in
+              '(rest, st2) <- get_args vt r st1 ;; Ok (a :: rest, st2)
   end.
-Fixpoint get_phi_inputs (t : ty) (l : list json) (acc : list (bid * vref)) (st : rst)
+Fixpoint get_phi_inputs (vt : list (string * ty)) (t : ty) (l : list json) (acc : list (bid * vref)) (st : rst)
   : result (list (bid * vref) * rst) :=
   match l with
   | [] => Ok (acc, st)
   | j :: r =>
       bn <- jstr "block" j ;; b <- get_block_ref bn st ;;
       vn <- jstr "value" j ;;
-      let '((a, ta), st1) := get_value_ref vn t st in
+      let '((a, ta), st1) := gvr vt vn t st in
       _ <- check (ty_eqb ta t) ValueErrorI ;;
       (* Phi.set_incoming: inputs is a dict keyed by block *)
       let acc' := if mem_pos b (map fst acc)
                   then map (fun p => if Pos.eqb (fst p) b then (b, a) else p) acc
                   else acc ++ [(b, a)] in
-      get_phi_inputs t r acc' st1
+      get_phi_inputs vt t r acc' st1
   end.
 
-Definition construct_instruction (cfg : jcfg) (j : json) (st : rst) : result rst :=
+Definition construct_instruction (cfg : jcfg) (vt : list (string * ty)) (j : json) (st : rst) : result rst :=
   k <- jstr "kind" j ;;
   let v := rs_next st in
   if String.eqb k "load" then
     n <- jstr "name" j ;; tj <- jget "type" j ;; t <- get_type tj ;;
-    an <- jstr "address" j ;; let '((a, ta), st1) := get_value_ref an Ptr st in
+    an <- jstr "address" j ;; let '((a, ta), st1) := gvr vt an Ptr st in
     vol <- jvol cfg j ;;
     _ <- check (ty_eqb ta Ptr) AssertionError ;;
     _ <- check (negb (ty_is_blob t)) ValueErrorI ;;
     finish_value (ILoad v n t a vol) st1
   else if String.eqb k "store" then
-    xn <- jstr "value" j ;; let '((x, _), st1) := get_value_ref xn Ptr st in
-    an <- jstr "address" j ;; let '((a, ta), st2) := get_value_ref an Ptr st1 in
+    xn <- jstr "value" j ;; let '((x, _), st1) := gvr vt xn Ptr st in
+    an <- jstr "address" j ;; let '((a, ta), st2) := gvr vt an Ptr st1 in
     vol <- jvol cfg j ;;
     _ <- check (ty_eqb ta Ptr) TypeError ;;
     add_instruction (IStore x a vol) st2
@@ -430,14 +462,14 @@ Definition construct_instruction (cfg : jcfg) (j : json) (st : rst) : result rst
     finish_value (IAlloc v n s al) st
   else if String.eqb k "addressof" then
     n <- jstr "name" j ;; tj <- jget "type" j ;; _ <- get_type tj ;;
-    sn <- jstr "src" j ;; let '((a, ta), st1) := get_value_ref sn Ptr st in
+    sn <- jstr "src" j ;; let '((a, ta), st1) := gvr vt sn Ptr st in
     _ <- check (ty_is_blob ta) TypeError ;;
     finish_value (IAddrOf v n a) st1
   else if String.eqb k "binop" then
     n <- jstr "name" j ;; tj <- jget "type" j ;; t <- get_type tj ;;
-    an <- jstr "a" j ;; let '((a, ta), st1) := get_value_ref an Ptr st in
+    an <- jstr "a" j ;; let '((a, ta), st1) := gvr vt an Ptr st in
     on <- jstr "operation" j ;;
-    bn <- jstr "b" j ;; let '((b, tb), st2) := get_value_ref bn Ptr st1 in
+    bn <- jstr "b" j ;; let '((b, tb), st2) := gvr vt bn Ptr st1 in
     match binop_of_name on with
     | None => Internal TypeError
     | Some o =>
@@ -446,7 +478,7 @@ Definition construct_instruction (cfg : jcfg) (j : json) (st : rst) : result rst
     end
   else if String.eqb k "unop" then
     n <- jstr "name" j ;; tj <- jget "type" j ;; t <- get_type tj ;;
-    an <- jstr "a" j ;; let '((a, ta), st1) := get_value_ref an Ptr st in
+    an <- jstr "a" j ;; let '((a, ta), st1) := gvr vt an Ptr st in
     on <- jstr "operation" j ;;
     match unop_of_name on with
     | None => Internal TypeError
@@ -454,7 +486,7 @@ Definition construct_instruction (cfg : jcfg) (j : json) (st : rst) : result rst
     end
   else if String.eqb k "cast" then
     n <- jstr "name" j ;; tj <- jget "type" j ;; t <- get_type tj ;;
-    an <- jstr "value" j ;; let '((a, _), st1) := get_value_ref an Ptr st in
+    an <- jstr "value" j ;; let '((a, _), st1) := gvr vt an Ptr st in
     finish_value (ICast v n t a) st1
   else if String.eqb k "const" then
     n <- jstr "name" j ;; tj <- jget "type" j ;; t <- get_type tj ;;
@@ -466,15 +498,15 @@ Definition construct_instruction (cfg : jcfg) (j : json) (st : rst) : result rst
   else if String.eqb k "phi" then
     n <- jstr "name" j ;; tj <- jget "type" j ;; t <- get_type tj ;;
     ij <- jget "inputs" j ;; il <- as_list ij ;;
-    '(ins, st1) <- get_phi_inputs t il [] st ;;
+    '(ins, st1) <- get_phi_inputs vt t il [] st ;;
     finish_value (IPhi v n t ins) st1
   else if String.eqb k "jump" then
     tn <- jstr "target" j ;; b <- get_block_ref tn st ;;
     add_instruction (IJump b) st
   else if String.eqb k "cjump" then
-    an <- jstr "a" j ;; let '((a, _), st1) := get_value_ref an Ptr st in
+    an <- jstr "a" j ;; let '((a, _), st1) := gvr vt an Ptr st in
     cn <- jstr "condition" j ;;
-    bn <- jstr "b" j ;; let '((b, _), st2) := get_value_ref bn Ptr st1 in
+    bn <- jstr "b" j ;; let '((b, _), st2) := gvr vt bn Ptr st1 in
     yn <- jstr "yes_block" j ;; y <- get_block_ref yn st2 ;;
     nn <- jstr "no_block" j ;; no <- get_block_ref nn st2 ;;
     match cond_of_name cn with
@@ -482,25 +514,25 @@ Definition construct_instruction (cfg : jcfg) (j : json) (st : rst) : result rst
     | Some c => add_instruction (ICJump a c b y no) st2
     end
   else if String.eqb k "procedurecall" then
-    cn <- jstr "callee" j ;; let '((c, tc), st1) := get_value_ref cn Ptr st in
+    cn <- jstr "callee" j ;; let '((c, tc), st1) := gvr vt cn Ptr st in
     aj <- jget "arguments" j ;; al <- as_list aj ;;
-    '(args, st2) <- get_args al st1 ;;
+    '(args, st2) <- get_args vt al st1 ;;
     _ <- check (ty_eqb tc Ptr) ValueErrorI ;;
     add_instruction (ICallP c args) st2
   else if String.eqb k "functioncall" then
     n <- jstr "name" j ;; tj <- jget "type" j ;; t <- get_type tj ;;
-    cn <- jstr "callee" j ;; let '((c, tc), st1) := get_value_ref cn Ptr st in
+    cn <- jstr "callee" j ;; let '((c, tc), st1) := gvr vt cn Ptr st in
     aj <- jget "arguments" j ;; al <- as_list aj ;;
-    '(args, st2) <- get_args al st1 ;;
+    '(args, st2) <- get_args vt al st1 ;;
     _ <- check (ty_eqb tc Ptr) ValueErrorI ;;
     finish_value (ICallF v n t c args) st2
   else if String.eqb k "exit" then add_instruction IExit st
   else if String.eqb k "return" then
-    rn <- jstr "result" j ;; let '((a, _), st1) := get_value_ref rn Ptr st in
+    rn <- jstr "result" j ;; let '((a, _), st1) := gvr vt rn Ptr st in
     add_instruction (IReturn a) st1
   else if fix_copyblob cfg && String.eqb k "copyblob" then
-    dn <- jstr "dst" j ;; let '((d, _), st1) := get_value_ref dn Ptr st in
-    sn <- jstr "src" j ;; let '((s, _), st2) := get_value_ref sn Ptr st1 in
+    dn <- jstr "dst" j ;; let '((d, _), st1) := gvr vt dn Ptr st in
+    sn <- jstr "src" j ;; let '((s, _), st2) := gvr vt sn Ptr st1 in
     n <- jint "amount" j ;;
     add_instruction (ICopyBlob d s n) st2
   else if fix_undefined cfg && String.eqb k "undefined" then
@@ -508,29 +540,29 @@ Definition construct_instruction (cfg : jcfg) (j : json) (st : rst) : result rst
     finish_value (IUndef v n t) st
   else Internal NotImplemented.
 
-Fixpoint construct_instructions (cfg : jcfg) (l : list json) (st : rst) : result rst :=
+Fixpoint construct_instructions (cfg : jcfg) (vt : list (string * ty)) (l : list json) (st : rst) : result rst :=
   match l with
   | [] => Ok st
-  | j :: r => st1 <- construct_instruction cfg j st ;; construct_instructions cfg r st1
+  | j :: r => st1 <- construct_instruction cfg vt j st ;; construct_instructions cfg vt r st1
   end.
 
-Definition construct_block (cfg : jcfg) (j : json) (st : rst) : result rst :=
+Definition construct_block (cfg : jcfg) (vt : list (string * ty)) (j : json) (st : rst) : result rst :=
   name <- jstr "name" j ;;
   ij <- jget "instructions" j ;; il <- as_list ij ;;
   b <- get_block_ref name st ;;
   let st0 := mk_rst (rs_glob st) (rs_loc st) (rs_infun st) (rs_pend st) (rs_next st) (rs_bmap st)
                     (rs_funcs st) (rs_blocks st) [] in
-  st1 <- construct_instructions cfg il st0 ;;
+  st1 <- construct_instructions cfg vt il st0 ;;
   (* subroutine.add_block -> make_unique_name(block) *)
   _ <- check (negb (mem_str name (block_names_of (rs_blocks st1)
                                   ++ map def_name (instrs_defs (flat_map b_ins (rs_blocks st1) ++ rs_ins st1)))))
              (OtherI 77) ;;
   Ok (mk_rst (rs_glob st1) (rs_loc st1) (rs_infun st1) (rs_pend st1) (rs_next st1) (rs_bmap st1)
              (rs_funcs st1) (rs_blocks st1 ++ [mk_block b name (rs_ins st1)]) []).
-Fixpoint construct_blocks (cfg : jcfg) (l : list json) (st : rst) : result rst :=
+Fixpoint construct_blocks (cfg : jcfg) (vt : list (string * ty)) (l : list json) (st : rst) : result rst :=
   match l with
   | [] => Ok st
-  | j :: r => st1 <- construct_block cfg j st ;; construct_blocks cfg r st1
+  | j :: r => st1 <- construct_block cfg vt j st ;; construct_blocks cfg vt r st1
   end.
 
 Definition construct_binding (s : string) : result binding :=
@@ -566,7 +598,8 @@ Definition construct_subroutine (cfg : jcfg) (j : json) (st : rst) : result rst 
   let st2 := mk_rst (rs_glob st1) [] true (rs_pend st1) 1 (number_blocks 1 bnames)
                     (rs_funcs st1) [] [] in
   '(params, st3) <- construct_params pl O [] st2 ;;
-  st4 <- construct_blocks cfg bl st3 ;;
+  vt <- (if fix_fwdtype cfg then scan_value_types bl else Ok []) ;;
+  st4 <- construct_blocks cfg vt bl st3 ;;
   Ok (mk_rst (rs_glob st4) [] false (rs_pend st4) 1 []
              (rs_funcs st4 ++ [mk_func name binding ret params (rs_blocks st4)]) [] []).
 Fixpoint construct_subroutines (cfg : jcfg) (l : list json) (st : rst) : result rst :=
